@@ -1086,3 +1086,383 @@ def check_C14(run):
         run.cov['extraction_differs'] = chan_bad
     run.cov['trusted_base'] = C.GLOBAL_TRUST + ['bincode 1.3 default configuration and serde derive are what the model encodes (validated byte-for-byte on this run\'s messages); strings are carried as UTF-8 bytes; Response::ProfilingData is not modelled',
                                                 'crossbeam unbounded channel = FIFO; Relaxed atomics on one counter are coherent per location; the channel skeleton extractor (feature record)']
+
+
+# ------------------------------------------------------------------ shared L2 oracles (C02 C03 C05 C07)
+is_mutating = l2.is_mutating
+
+READONLY_SRC = ('SetRoot', 'GetEntries', 'GetFileContent')
+
+
+def oracle_src_readonly(r):
+    bad = [c for c in r['impl_r'].get('src', []) if cmd_name(c) not in READONLY_SRC]
+    return f'source doer was sent {bad[0]}' if bad else None
+
+
+def oracle_ancestors(r):
+    d = r['impl_r'].get('dest', [])
+    n = sum(1 for c in d if cmd_name(c) == 'CreateRootAncestors')
+    if n > 1:
+        return 'CreateRootAncestors sent more than once'
+    if n and r['sc'].dry:
+        return 'CreateRootAncestors sent in a dry run'
+    if any(cmd_name(c) == 'CreateRootAncestors' for c in r['impl_r'].get('src', [])):
+        return 'CreateRootAncestors sent to the source'
+    return None
+
+
+def oracle_dry(r):
+    if not r['sc'].dry:
+        return None
+    bad = [c for c in r['impl_r'].get('dest', []) if is_mutating(c)]
+    if bad:
+        return f'dry run sent {bad[0]} to the destination'
+    bad = [c for c in r['impl_r'].get('src', []) if cmd_name(c) not in ('SetRoot', 'GetEntries')]
+    if bad:
+        return f'dry run sent {bad[0]} to the source'
+    return None
+
+
+CONSENT_ERRS = ('err:RootErr', 'err:EntryErr', 'err:NewerErr', 'err:OlderErr', 'err:SameErr')
+
+
+def oracle_consent_error_untouched(r):
+    if r['impl_r'].get('res') in CONSENT_ERRS:
+        bad = [c for c in r['impl_r'].get('dest', []) if is_mutating(c) and cmd_name(c) != 'CreateRootAncestors']
+        if bad:
+            return f'run ended with {r["impl_r"]["res"]} but had already sent {bad[0]}'
+    return None
+
+
+def sides_asked(sc):
+    """which side is asked for its entries (as the harness decides which scripted listing messages are delivered)"""
+    sk = sc.src_reply[1] if sc.src_reply[0] == 'R' else None
+    src_is_leaf = bool(sk) and sk != 'D'
+    slash = sc.dest_root.endswith('/') or sc.dest_root.endswith('\\')
+    eff = sc.dest_reply2 if (src_is_leaf and slash) else sc.dest_reply
+    dk = eff[1] if eff[0] == 'R' else None
+    return sk == 'D', dk == 'D'
+
+
+def effective_dest_listing(sc):
+    return {e[2]: e[3] for e in sc.events if e[0] == 'E' and e[1] == 'D'} if sides_asked(sc)[1] else {}
+
+
+def effective_src_listing(sc):
+    return {e[2]: e[3] for e in sc.events if e[0] == 'E' and e[1] == 'S'} if sides_asked(sc)[0] else {}
+
+
+def oracle_consent_behaviours(r):
+    """no deletion with entry behaviour error/skip; no overwrite of an existing destination file whose case's
+    behaviour is error/skip (prompt cases are decided by the answers: covered by the model comparison)"""
+    sc, d = r['sc'], r['impl_r'].get('dest', [])
+    newer, older, same, entry, root = sc.beh
+    dl, sl = effective_dest_listing(sc), effective_src_listing(sc)
+    for c in d:
+        n = cmd_name(c)
+        if n.startswith('Delete'):
+            p = cmd_path(c)
+            if p != '' and entry in 'es':
+                return f'{c} sent although the entry-deletion behaviour is {"error" if entry == "e" else "skip"}'
+            if p == '' and (root in 'es' or entry in 'es'):
+                return f'destination root deleted although root/entry behaviour is error/skip'
+        if n == 'CreateOrUpdateFile':
+            p = cmd_path(c)
+            sd, dd = sl.get(p), dl.get(p)
+            if p == '':
+                sd = sc.src_reply[1] if sc.src_reply[0] == 'R' else None
+                dd = (sc.dest_reply2[1] if (sc.dest_reply2[0] == 'R' and (sc.dest_root.endswith('/') or sc.dest_root.endswith('\\')) and sd and sd != 'D') else
+                      (sc.dest_reply[1] if sc.dest_reply[0] == 'R' else None))
+            if sd and dd and sd.startswith('F:') and dd.startswith('F:'):
+                sm, dm = int(sd.split(':')[1]), int(dd.split(':')[1])
+                b = same if sm == dm else (older if sm > dm else newer)
+                if b in 'es':
+                    return f'existing destination file {p!r} overwritten although its case\'s behaviour is {"error" if b == "e" else "skip"}'
+    return None
+
+
+def oracle_failure_reported(r):
+    if r['faulty'] and r['impl_r'].get('res') == 'ok':
+        return 'the destination doer answered a command with an error but the run ended ok'
+    return None
+
+
+def parse_summary(log_hex):
+    """{'files_del','folders_del','links_del','files_cp','folders_cr','links_cp'} from the info lines"""
+    import re
+    out = dict(files_del=0, folders_del=0, links_del=0, files_cp=0, folders_cr=0, links_cp=0, nothing=False, would=[])
+    for h in log_hex:
+        l = bytes.fromhex(h).decode(errors='replace')
+        m = re.match(r'(?:Deleted|Would delete) (\d+) file\(s\) totalling (\S+), (\d+) folder\(s\) and (\d+) symlink\(s\)', l)
+        if m:
+            out.update(files_del=int(m.group(1)), folders_del=int(m.group(3)), links_del=int(m.group(4))); continue
+        m = re.match(r'(?:Copied|Would copy) (\d+) file\(s\) totalling (\S+), (?:created|would create) (\d+) folder\(s\) and (?:copied|would copy) (\d+) symlink\(s\)', l)
+        if m:
+            out.update(files_cp=int(m.group(1)), folders_cr=int(m.group(3)), links_cp=int(m.group(4))); continue
+        if l == 'Nothing to do!':
+            out['nothing'] = True; continue
+        m = re.match(r"Would (delete|create|copy) (?:source|dest) (?:root )?(file|folder|symlink) '", l)
+        if m:
+            out['would'].append((m.group(1), m.group(2), l))
+    return out
+
+
+def trace_actions(dest):
+    acts, seen_files = [], set()
+    for c in dest:
+        n = cmd_name(c)
+        if n == 'DeleteFile': acts.append(('delete', 'file', cmd_path(c)))
+        elif n == 'DeleteFolder': acts.append(('delete', 'folder', cmd_path(c)))
+        elif n == 'DeleteSymlink': acts.append(('delete', 'symlink', cmd_path(c)))
+        elif n == 'CreateFolder': acts.append(('create', 'folder', cmd_path(c)))
+        elif n == 'CreateSymlink': acts.append(('create', 'symlink', cmd_path(c)))
+        elif n == 'CreateOrUpdateFile':
+            p = cmd_path(c)
+            if p not in seen_files:
+                seen_files.add(p); acts.append(('copy', 'file', p))
+    return acts
+
+
+def oracle_summary(r):
+    ir = r['impl_r']
+    if ir.get('res') != 'ok' or r['sc'].dry or 'Marker(Done)' not in ir.get('dest', []):
+        return None      # (a skipped root deletion ends the sync with Ok before anything is planned: no summary)
+    s = parse_summary(ir.get('log', []))
+    acts = trace_actions(ir.get('dest', []))
+    cnt = lambda a, k: sum(1 for x in acts if x[0] == a and x[1] == k)
+    want = dict(files_del=cnt('delete', 'file'), folders_del=cnt('delete', 'folder'), links_del=cnt('delete', 'symlink'),
+                files_cp=cnt('copy', 'file'), folders_cr=cnt('create', 'folder'), links_cp=cnt('create', 'symlink'))
+    got = {k: s[k] for k in want}
+    if got != want:
+        return f'summary {got} differs from what was sent {want}'
+    if s['nothing'] != (sum(want.values()) == 0):
+        return '"Nothing to do!" does not match the commands sent'
+    return None
+
+
+def gen_mixed(rng, n, faults=True):
+    return [l2.gen_scenario(rng, faults=faults) for _ in range(n)]
+
+
+# ------------------------------------------------------------------ C02
+
+@prop('C02')
+def check_C02(run):
+    from . import l3, l4
+    import shutil
+    thorough = run.tier == 'thorough'
+    if not prepare(run, need_cli=True):
+        return
+    C.proofs_step(run, 'C02')
+    rng = run.rng
+    run.cov['rule'] = ('L2: the real sync() against scripted doers over mixed scenarios (roots of every kind, conflicts, behaviours, answers, dry runs, error replies, unexpected replies): '
+                       'oracle = whitelist on the source trace, CreateRootAncestors only to the destination, at most once, never in a dry run; '
+                       'L4: the CLI on real trees whose destination contains symlinks into populated decoy directories, snapshot of source + decoys + sandbox before/after; '
+                       'non-trivial = the run sent at least one mutating command or ended in an error; distinct by request line')
+    scs = corpus_l2('C02') + gen_mixed(rng, 2500 if not thorough else 25000)
+    l2_stream(run, scs, [('source-read-only', oracle_src_readonly), ('ancestors', oracle_ancestors)], 'boss-traces',
+              nontrivial=lambda r: any(is_mutating(c) for c in r['impl_r'].get('dest', [])) or r['impl_r'].get('res', '').startswith('err'),
+              focus_gen=lambda: gen_mixed(rng, 5000))
+    # ---- L4 with decoys
+    known = C.load_known()['open']
+    sb = l4.Sandbox()
+    try:
+        def build(case):
+            base = os.path.join(sb.dir, f'c{case}'); os.makedirs(base)
+            src, dst, out = (os.path.join(base, x) for x in ('src', 'dst', 'outside'))
+            l3.make_tree(out, [('', 'D'), ('dir', 'D'), ('dir/precious.txt', 'F', b'precious', 10**18), ('file.txt', 'F', b'outside file', 10**18)])
+            return base, src, dst, out
+        cases = []
+        # A: ordinary behaviours — nothing outside may change, the source may not change
+        for case in range(6 if not thorough else 40):
+            base, src, dst, out = build(case)
+            ents = [('', 'D'), ('d', 'D'), ('d/f', 'F', b'new', 2 * 10**18), ('g', 'F', b'gg', 2 * 10**18), ('l', 'L', '../outside/dir'), ('x', 'F', b'xx', 2 * 10**18)]
+            l3.make_tree(src, ents)
+            dents = [('', 'D'), ('d', 'L', '../outside/dir'), ('g', 'L', '../outside/file.txt'), ('x', 'L', '../outside/file.txt'), ('old', 'L', '../outside/dir'), ('l', 'D'), ('l/inner', 'F', b'i', 10**18)]
+            rng.shuffle(dents); dents.sort(key=lambda e: (e[0] != '', e[0].count('/')))
+            l3.make_tree(dst, dents[: rng.randint(2, len(dents))] if case else dents)
+            extra = rng.choice([[], ['--dry-run'], ['--dest-file-newer', 'overwrite'], ['--files-same-time', 'overwrite'], ['--filter', '-g']])
+            cases.append(('ordinary', base, src, dst, out, ['--dest-entry-needs-deleting', 'delete', '--dest-root-needs-deleting', 'delete'] + extra, None))
+        # B: the recorded finding F7a (skip of an incompatible symlink deletion, then copies beneath it)
+        base, src, dst, out = build('f7a')
+        l3.make_tree(src, [('', 'D'), ('d', 'D'), ('d/f', 'F', b'new', 2 * 10**18)])
+        l3.make_tree(dst, [('', 'D'), ('d', 'L', '../outside/dir')])
+        cases.append(('skip-incompatible-symlink', base, src, dst, out, ['--dest-entry-needs-deleting', 'skip'], 'C02-F7a'))
+        for kind, base, src, dst, out, args, finding in cases:
+            before = {k: l3.snapshot(p) for k, p in (('src', src), ('outside', out))}
+            r = l4.run_cli([src + '/', dst + '/'] + args, env=sb.env(), timeout=60)
+            after = {k: l3.snapshot(p) for k, p in (('src', src), ('outside', out))}
+            changed = [k for k in before if before[k] != after[k]]
+            run.case(('l4-decoy', kind, tuple(args), str(sorted(l3.snapshot(dst)))), True,
+                     sample=dict(layer='L4', kind=kind, args=args, rc=r['rc'], changed=changed))
+            run.count('l4-decoy:' + kind)
+            if changed:
+                diff = {k: {p.decode(errors='replace'): (before[k].get(p), after[k].get(p)) for p in set(before[k]) | set(after[k]) if before[k].get(p) != after[k].get(p)} for k in changed}
+                if finding and any(f.get('id') == finding for f in known) and changed == ['outside']:
+                    run.known.append(f'{finding}: with --dest-entry-needs-deleting=skip a destination symlink to a folder outside the destination is kept and the source folder\'s contents are created through it ({list(diff["outside"])[:2]})')
+                else:
+                    run.violation(dict(kind='oracle-failed-on-implementation', oracle='source and everything outside the destination unchanged', layer='L4', scenario=kind, args=args,
+                                       rc=r['rc'], changed=diff, stderr=r['err'][-800:]))
+    finally:
+        sb.close()
+    run.cov['trusted_base'] = C.GLOBAL_TRUST + ['the doer-side half of the property (every doer path is root.join(relative); read-only commands do not change the file system) is covered by C12/C01\'s file-system checks; here: boss side + L4 snapshots']
+    run.assumptions = ['source and destination are not nested; no destination file is hard-linked from outside']
+
+
+# ------------------------------------------------------------------ C03
+
+@prop('C03')
+def check_C03(run):
+    thorough = run.tier == 'thorough'
+    if not prepare(run):
+        return
+    C.proofs_step(run, 'C03')
+    rng = run.rng
+    run.cov['rule'] = ('L2: behaviour assignments from the 4^5 product x prompt-answer scripts (skip/do, once/all, cancel at the k-th prompt, exhausted script = unattended terminal) x tree pairs mixing '
+                       'newer/older/same-time files, extra entries, kind conflicts incl. the root; exact trace + prompts = model; oracles: consent error => nothing destructive sent; no deletion / overwrite '
+                       'under an error/skip behaviour; non-trivial = a prompt was shown or a consent error occurred or something was deleted/overwritten; distinct by request line')
+    scs = corpus_l2('C03')
+    assigns = [''.join(rng.choice('peso') for _ in range(5)) for _ in range(200)] if not thorough else [a + b + c + d + e for a in 'peso' for b in 'peso' for c in 'peso' for d in 'peso' for e in 'peso']
+    trees = [l2.gen_scenario(rng, faults=False) for _ in range(3 if not thorough else 5)]
+    answer_scripts = ['', 's', 'd', 'c', 'S', 'D', 'sd', 'dc', 'sDc', 'SSdd', 'ddddddd', 'sssssss', 'dsc'] if thorough else None
+    for a in assigns:
+        for t in trees:
+            for ans in (answer_scripts or [rng.choice(['', 'c', 's', 'd', 'S', 'D', 'sD', 'dSc', 'ddc', 'sdsd', 'DDDD'])]):
+                s = t.clone(); s.beh = a; s.answers = ans; s.dry = False; s.err_at_cmd = None
+                scs.append(s)
+    scs += [l2.gen_scenario(rng, faults=False) for _ in range(600)]
+    def nt(r):
+        ir = r['impl_r']
+        return bool(ir.get('prompts')) or ir.get('res') in CONSENT_ERRS or any(cmd_name(c).startswith('Delete') for c in ir.get('dest', []))
+    l2_stream(run, scs, [('consent-error-untouched', oracle_consent_error_untouched), ('behaviours', oracle_consent_behaviours)], 'consent', nontrivial=nt,
+              focus_gen=lambda: [l2.gen_scenario(rng, faults=False) for _ in range(6000)])
+    run.cov['trusted_base'] = C.GLOBAL_TRUST + ['dialoguer / an attended terminal are not exercised: answers come through the test-answer hook; an unattended terminal is the exhausted script']
+
+
+# ------------------------------------------------------------------ C05
+
+@prop('C05')
+def check_C05(run):
+    from . import l3, l4
+    import shutil
+    thorough = run.tier == 'thorough'
+    if not prepare(run, need_cli=True):
+        return
+    C.proofs_step(run, 'C05')
+    rng = run.rng
+    run.cov['rule'] = ('L2: paired runs of the real sync() on the same scenario with and without dry_run; oracles: the dry run sends nothing mutating and no GetFileContent; its "Would ..." lines and summary counts '
+                       'equal the real run\'s delete/create/copy commands (same kinds, same order, files once) whenever the real run succeeds; L4: CLI dry run on real trees, snapshot before/after incl. missing '
+                       'destination ancestors; non-trivial = the plan has at least one action; distinct by request line')
+    pairs = []
+    for _ in range(800 if not thorough else 8000):
+        s = l2.gen_scenario(rng, faults=False)
+        d = s.clone(); d.dry = True; s.dry = False
+        pairs.append((d, s))
+    flat = corpus_l2('C05') + [x for p in pairs for x in p]
+    ncorp = len(flat) - 2 * len(pairs)
+    res = l2_stream(run, flat, [('dry-run-read-only', oracle_dry), ('summary', oracle_summary)], 'dry-run',
+                    nontrivial=lambda r: len(trace_actions(r['impl_r'].get('dest', []))) + len(parse_summary(r['impl_r'].get('log', []))['would']) > 0)
+    site_counts = {}
+    for i in range(len(pairs)):
+        rd, rr = res[ncorp + 2 * i], res[ncorp + 2 * i + 1]
+        if rr['impl_r'].get('res') != 'ok' or rd['impl_r'].get('res') != 'ok':
+            continue
+        would = parse_summary(rd['impl_r'].get('log', []))
+        acts = trace_actions(rr['impl_r'].get('dest', []))
+        for a in acts:
+            site_counts[a[0] + ':' + a[1]] = site_counts.get(a[0] + ':' + a[1], 0) + 1
+        sep = chr(rd['sc'].dest_reply[3]) if rd['sc'].dest_reply[0] == 'R' else '/'
+        ok = len(would['would']) == len(acts) and all(w[0] == a[0] and w[1] == a[1] and (a[2] == '' or a[2].replace('/', sep) + "'" in w[2]) for w, a in zip(would['would'], acts))
+        sd, sr = would, parse_summary(rr['impl_r'].get('log', []))
+        same_counts = all(sd[k] == sr[k] for k in ('files_del', 'folders_del', 'links_del', 'files_cp', 'folders_cr', 'links_cp', 'nothing'))
+        if not ok or not same_counts:
+            run.violation(dict(kind='oracle-failed-on-implementation', oracle='the dry run names exactly what the real run does', layer='L2',
+                               request_line_dry=rd['line'], request_line_real=rr['line'], would=[w[2] for w in would['would']], real_actions=acts,
+                               dry_summary={k: sd[k] for k in sd if k != 'would'}, real_summary={k: sr[k] for k in sr if k != 'would'}, scenario=rd['sc'].describe()))
+            break
+    run.cov['action_sites_exercised_in_paired_runs'] = site_counts
+    # L4: a dry run changes nothing, not even missing ancestors
+    sb = l4.Sandbox()
+    try:
+        for case in range(6 if not thorough else 60):
+            base = os.path.join(sb.dir, f'd{case}'); os.makedirs(base)
+            src, dst = os.path.join(base, 'src'), os.path.join(base, 'a/b/dst' if case % 2 else 'dst')
+            l3.make_tree(src, [('', 'D'), ('f', 'F', b'x' * rng.randint(0, 9000), 2 * 10**18), ('d', 'D'), ('d/g', 'F', b'g', 2 * 10**18), ('l', 'L', 'f')])
+            if case % 2 == 0:
+                l3.make_tree(dst, [('', 'D'), ('f', 'F', b'old', 10**18), ('gone', 'D'), ('gone/x', 'F', b'x', 10**18), ('d', 'F', b'file-not-folder', 10**18)])
+            before = l3.snapshot(base)
+            r = l4.run_cli([src + '/', dst + '/', '--dry-run', '--dest-file-newer', 'overwrite'], env=sb.env(), timeout=60)
+            after = l3.snapshot(base)
+            run.case(('l4-dry', case), True, sample=dict(layer='L4', rc=r['rc'], would_lines=r['err'].count('Would ') + r['out'].count('Would ')))
+            run.count('l4-dry-run')
+            if before != after or r['rc'] != 0:
+                run.violation(dict(kind='oracle-failed-on-implementation', oracle='--dry-run changes nothing (missing ancestors included)', layer='L4', rc=r['rc'],
+                                   changed=[p.decode(errors='replace') for p in set(before) | set(after) if before.get(p) != after.get(p)], stderr=r['err'][-500:]))
+    finally:
+        sb.close()
+    run.cov['trusted_base'] = C.GLOBAL_TRUST + ['the prediction theorems are per loop / per entry (C05_prediction_deletes, C05_prediction_copy_entry); the whole-run statement is carried by the paired L2 runs']
+
+
+# ------------------------------------------------------------------ C07
+
+@prop('C07')
+def check_C07(run):
+    from . import l3, l4
+    thorough = run.tier == 'thorough'
+    if not prepare(run, need_cli=True):
+        return
+    C.proofs_step(run, 'C07')
+    rng = run.rng
+    run.cov['rule'] = ('L2: for scenarios with a non-empty plan, an error reply injected at every mutating destination command index k (the boss sees it at whatever poll the real timing gives; '
+                       'the model is asked for every poll index): oracle = the run does not end ok; summary numbers = commands sent; source failures (error reply, unexpected reply, length change); '
+                       'L4: real faults (ENOTEMPTY through a hidden entry, EISDIR/ENOTDIR kind conflicts made behind the boss\'s back, unwritable destination as uid 65534); non-trivial = a fault was injected or the plan is non-empty; distinct by request line')
+    scs = corpus_l2('C07')
+    bases = [l2.gen_scenario(rng, profile='folder', faults=False) for _ in range(60 if not thorough else 600)]
+    for b in bases:
+        b.beh, b.answers, b.dry = 'ooooo', '', False
+    first = l2.run_batch(bases)
+    for b, r in zip(bases, first):
+        nm = sum(1 for c in r['impl_r'].get('dest', []) if is_mutating(c))
+        for k in range(nm):
+            s = b.clone(); s.err_at_cmd = k; scs.append(s)
+    scs += gen_mixed(rng, 800 if not thorough else 8000)
+    l2_stream(run, scs, [('failure-reported', oracle_failure_reported), ('summary', oracle_summary), ('relay', oracle_relay)], 'faults',
+              nontrivial=lambda r: r['faulty'] or any(is_mutating(c) for c in r['impl_r'].get('dest', [])))
+    # L4 real faults
+    sb = l4.Sandbox()
+    try:
+        def tree(name):
+            base = os.path.join(sb.dir, name); os.makedirs(base)
+            return base, os.path.join(base, 'src'), os.path.join(base, 'dst')
+        outcomes = []
+        # ENOTEMPTY: a folder that must go holds an entry the filters hide
+        base, src, dst = tree('notempty')
+        l3.make_tree(src, [('', 'D'), ('keepme', 'F', b'k', 10**18)])
+        l3.make_tree(dst, [('', 'D'), ('big', 'D'), ('big/hidden.txt', 'F', b'h', 10**18), ('big/seen.txt', 'F', b's', 10**18)])
+        outcomes.append(('ENOTEMPTY', l4.run_cli([src + '/', dst + '/', '--filter', '-big/hidden.txt'], env=sb.env(), timeout=60), dst))
+        # unreadable source entry
+        base, src, dst = tree('unreadable')
+        l3.make_tree(src, [('', 'D'), ('sub', 'D'), ('sub/f', 'F', b'f', 10**18)])
+        os.chmod(os.path.join(src, 'sub'), 0)
+        import subprocess
+        def as_nobody():
+            os.setgroups([]); os.setgid(65534); os.setuid(65534)
+        os.chmod(sb.dir, 0o755); os.chmod(base, 0o777); os.makedirs(dst); os.chmod(dst, 0o777)
+        outcomes.append(('EACCES-source-dir', l4.run_cli([src + '/', dst + '/'], env=sb.env(), timeout=60, preexec=as_nobody), dst))
+        os.chmod(os.path.join(src, 'sub'), 0o755)
+        # unwritable destination folder
+        base, src, dst = tree('unwritable')
+        l3.make_tree(src, [('', 'D'), ('a', 'F', b'a', 10**18), ('b', 'F', b'b', 10**18)])
+        os.chmod(base, 0o777); os.makedirs(dst); os.chmod(dst, 0o555)
+        outcomes.append(('EACCES-dest-dir', l4.run_cli([src + '/', dst + '/'], env=sb.env(), timeout=60, preexec=as_nobody), dst))
+        os.chmod(dst, 0o755)
+        for name, r, dst in outcomes:
+            run.case(('l4-fault', name), True, sample=dict(layer='L4', fault=name, rc=r['rc'], stderr_tail=r['err'][-200:]))
+            run.count('l4-fault:' + name)
+            if r['timeout'] or r['rc'] != 12 or 'ERROR' not in r['err']:
+                run.violation(dict(kind='oracle-failed-on-implementation', oracle='a failing operation ends the run with status 12 and an error message', layer='L4', fault=name,
+                                   rc=r['rc'], timeout=r['timeout'], stderr=r['err'][-800:]))
+    finally:
+        import subprocess as _sp
+        _sp.run(['chmod', '-R', 'u+rwx', sb.dir]); sb.close()
+    run.cov['trusted_base'] = C.GLOBAL_TRUST + ['"every I/O error the OS can produce" is bounded by the error kinds provoked here; the doer turning each failure into an Error response is validated by L3/L4, not proved']
